@@ -70,6 +70,10 @@ func (w *World) setup() {
 		w.n = 16 + c.Choose(17, "nbig")
 		w.proto = JF
 	}
+	if w.o.Mode == "mid" {
+		// medium groups with any threshold (t >= 8, t = n-1, ...) in all three protocols
+		w.n = 13 + c.Choose(12, "nmid")
+	}
 	// "Fermat" torsion pair (adv mode, rare): A_p + T and A_{p+12} - T with T of order 13 outside
 	// G2. The two components cancel in every SUM of the vector's points, and since x^12 = 1
 	// (mod 13) for every x not divisible by 13, the public key shares of participants 1..12
